@@ -225,13 +225,10 @@ def hop_sites(db, rep, cap=2):
 
 
 
-def run(ctx):
-    db, rep = ctx.db, ctx.report
+def decoder_sites(db, rep):
+    """qmail-smtpd blast() against the reference decoder, for every wire string over {CR,LF,DOT,other}: instance -> (ok, where, detail, path); also the statistics"""
     prog = db.program('qmail-smtpd')
     blast = prog.fn('blast', 'qmail-smtpd.c')
-    r = rep.rule('C05.1-decoder-equivalence', 'R-TRANSDUCER',
-                 'for every wire string over {CR,LF,DOT,other}: stored bytes = reference decoder output (CRLF->LF, one leading dot removed, bare CR kept), '
-                 'bare LF refused via straynewline, return exactly at CRLF.CRLF, nothing read beyond it')
     main = prog.fn('main', 'qmail-smtpd.c')
     cm = main.calls('commands')
     if not cm:
@@ -248,18 +245,79 @@ def run(ctx):
         raise AnalysisBroken('qmail-smtpd blast(): reads/puts/returns/rejects not found (%d/%d/%d/%d)' % (H.reads, H.puts, H.returns, H.rejects))
     insts = ['decoded-stream-equals-reference', 'bare-LF-refused', 'refusal-only-for-bare-LF', 'return-only-at-CRLF.CRLF',
              'stop-reading-at-the-terminator', 'data-read-from-the-command-stream-object', 'output-byte-is-an-input-byte']
+    out = {}
     for i in insts + [k for k in H.bad if k not in insts]:
         if i in H.bad:
             w, d, t = H.bad[i]
-            r.bad(i, w, d, t)
+            out[i] = (False, w, d, t)
         else:
-            r.ok(i, 'qmail-smtpd.c:blast')
+            out[i] = (True, 'qmail-smtpd.c:blast', '', [])
+    if not H.bad and len(H.ref_edges) < 18:
+        raise AnalysisBroken('only %d of the reference decoder\'s edges were exercised; extraction incomplete' % len(H.ref_edges))
+    return out, H, eng
+
+
+def die_reply_sites(db, rep, prog):
+    """qmail-smtpd's fatal replies (straynewline, die_alarm, ...): the text is written to the client BEFORE the output is flushed and the process ends"""
+    out = {}
+    for name in ('straynewline', 'die_alarm', 'die_nomem', 'die_control'):
+        fn = prog.resolve(name, 'qmail-smtpd.c')
+        if fn is None or not fn.blocks:
+            continue
+        seqs = []
+
+        class DH(QHooks):
+            def ev(self, E, e):
+                E.set('$ev', fs(tuple(next(iter(E.get('$ev') or [()]))) + (e,)))
+
+            def prim_out(self, E, x, args):
+                from qv.lib import lit_of
+                self.ev(E, ('out', (lit_of(E, x.args[0]) or '')[:3]))
+                return [Outcome(ret=TOP)]
+
+            def prim_flush(self, E, x, args):
+                self.ev(E, ('flush', ''))
+                return [Outcome(ret=TOP)]
+
+            def prim__exit(self, E, x, args):
+                seqs.append(tuple(next(iter(E.get('$ev') or [()]))))
+                return 'noreturn'
+        e = Engine(db, prog, DH(), max_states=20000)
+        e.run(fn, {})
+        rep.count_states(e.states, e.transitions)
+        ok = bool(seqs) and all(any(ev[0] == 'out' and ev[1][:1] in '45' for ev in s_) and s_ and s_[-1][0] == 'flush' and
+                                max(i for i, ev in enumerate(s_) if ev[0] == 'out') < max(i for i, ev in enumerate(s_) if ev[0] == 'flush') for s_ in seqs)
+        out['%s:reply-written-then-flushed-then-exit' % name] = (ok, 'qmail-smtpd.c:' + name, 'the process ends after %s: a reply that is only buffered when the output is flushed never reaches the client' % (list(seqs[:2]),), [])
+    if 'straynewline:reply-written-then-flushed-then-exit' not in out:
+        raise AnalysisBroken('qmail-smtpd: straynewline() not found')
+    return out
+
+
+def run(ctx):
+    db, rep = ctx.db, ctx.report
+    prog = db.program('qmail-smtpd')
+    blast = prog.fn('blast', 'qmail-smtpd.c')
+    r = rep.rule('C05.1-decoder-equivalence', 'R-TRANSDUCER',
+                 'for every wire string over {CR,LF,DOT,other}: stored bytes = reference decoder output (CRLF->LF, one leading dot removed, bare CR kept), '
+                 'bare LF refused via straynewline, return exactly at CRLF.CRLF, nothing read beyond it')
+    dsites, H, eng = decoder_sites(db, rep)
+    stream = H.stream if hasattr(H, 'stream') else None
+    main = prog.fn('main', 'qmail-smtpd.c')
+    cm = main.calls('commands')
+    for i, v in dsites.items():
+        r.check(v[0], i, v[1], v[2], v[3])
+    # the refusal reaches the client: straynewline() puts the 451 text out, flushes it, and only then ends the process
+    for inst_, v_ in sorted(die_reply_sites(db, rep, prog).items()):
+        r.check(v_[0], inst_, v_[1], v_[2], v_[3])
+    # the byte stream under blast(): short reads are shifted intact (substdio_feed / byte_copyr)
+    from rules import libtab as _lt
+    for f_ in (_lt.substdio_read_sites, _lt.byte_copyr_sites):
+        for inst_, v_ in sorted(f_(db, rep, prog).items()):
+            r.check(v_[0], 'read-side:' + inst_, v_[1], v_[2], v_[3])
     n_edges = len(H.ref_edges)
     r.note(abstract_states=eng.states, reference_edges_exercised=n_edges, exhaustive=True)
     rep.exhaustive_rules.append('C05.1-decoder-equivalence')
     rep.sample({'reference decoder edges exercised': sorted('%s --%s--> %s%s' % (a, b, c, (' [' + d + ']') if d else '') for a, b, c, d in H.ref_edges)})
-    if not H.bad and n_edges < 18:
-        raise AnalysisBroken('only %d of the reference decoder\'s edges were exercised; extraction incomplete' % n_edges)
 
     # ---- framing does not depend on the hop-counting variables; the byte is only compared
     r2 = rep.rule('C05.2-abstraction-exact', 'R-GUARD', 'framing state depends only on `state` and comparisons of the byte with constants')
